@@ -190,12 +190,12 @@ SINGLE = {
 }
 
 
-def check_single(run, E):
+def check_single(run, E, pid='C01'):
     """single dataset: dispatch by method name with the options that method has; conditions re-sorted alphabetically
     (values and labels together: RDMs.sort_by) exactly when a condition descriptor is given"""
     for method, (fn, opts) in SINGLE.items():
         for desc_case in ('given', 'none'):
-            ck = FuncCheck(E, run, 'C01', CALC + 'calc_rdm', f'single,method={method},descriptor={desc_case}')
+            ck = FuncCheck(E, run, pid, CALC + 'calc_rdm', f'single,method={method},descriptor={desc_case}')
 
             def mk(E, method=method, desc_case=desc_case):
                 kw = dict(method=method, descriptor='cond' if desc_case == 'given' else None,
@@ -219,7 +219,7 @@ def check_single(run, E):
                     ck.ensure('post/no-reordering-without-descriptor', z3.BoolVal(srt is None))
             ck.execute(mk, post=post, allow_raise=lambda *a: None)
             yield ck
-    ck = FuncCheck(E, run, 'C01', CALC + 'calc_rdm', 'single,method=unknown')
+    ck = FuncCheck(E, run, pid, CALC + 'calc_rdm', 'single,method=unknown')
     ck.execute(lambda E: ([E.sym_obj('dataset', 'Dataset')], dict(method='no-such-method'), []), post=None,
                allow_raise=lambda E, a, k, p: z3.BoolVal(p.exc.exc_name == 'NotImplementedError'))
     if not any(p.outcome == 'raise' for p in getattr(ck, 'paths', [])):
